@@ -149,7 +149,9 @@ func (g *Global) LLString() string {
 		fmt.Fprintf(buf, ", partition %s", quote(g.Partition))
 	}
 	if g.Comdat != nil {
-		if g.Comdat.Name == g.Name() {
+		// The implicit form denotes the comdat named after the global; an unnamed
+		// global has no name to share.
+		if !g.IsUnnamed() && g.Comdat.Name == g.GlobalName {
 			buf.WriteString(", comdat")
 		} else {
 			fmt.Fprintf(buf, ", %s", g.Comdat)
